@@ -254,6 +254,23 @@ func (tr *Transaction) Commit() error {
 }
 
 func (tr *Transaction) discard() {
+	// A failed commit may have left this transaction's edit in the manifest
+	// file. Replace the manifest by a snapshot of the current version before
+	// the tables are removed, or the DB could not be opened again; if that
+	// is not possible keep the tables, the next open sorts them out.
+	if len(tr.tables) != 0 {
+		tr.db.compCommitLk.Lock()
+		var err error
+		if tr.db.s.manifestDirty {
+			err = tr.db.s.commit(&sessionRecord{}, false)
+		}
+		tr.db.compCommitLk.Unlock()
+		if err != nil {
+			tr.db.logf("transaction@discard manifest error %q, tables kept", err)
+			return
+		}
+	}
+
 	// Discard transaction.
 	for _, t := range tr.tables {
 		tr.db.logf("transaction@discard @%d", t.fd.Num)
